@@ -148,6 +148,10 @@ ZOO = [
     ('macro', 'zoo_ty!()', ['0', '1']),
     ('qpath', '<u8 as ZooTr>::Out', ['0u16', '300u16']),
     ('generic-path', '::std::option::Option<::std::vec::Vec<(u8, u8)>>', ['None', 'Some(vec![])', 'Some(vec![(0, 1)])']),
+    ('inherent-decoys', 'Inh', ['inh(0)', 'inh(1)', 'inh(2)']),
+    ('tuple-with-marker', '(u8, ::core::marker::PhantomData<u16>)', ['(0, ::core::marker::PhantomData)', '(1, ::core::marker::PhantomData)']),
+    ('tuple-with-unit', '((u8, u8), ())', ['((0, 1), ())', '((1, 0), ())', '((0, 0), ())']),
+    ('array-of-tuples', '[(u8, bool); 2]', ['[(0, true), (1, false)]', '[(0, true), (1, true)]']),
     ('nested-ref', "Option<&'static (u8, &'static str)>", ['None', 'Some(&(0, "a"))', 'Some(&(0, "b"))']),
 ]
 ZOO_PRE = ("macro_rules! zoo_ty { () => { u8 }; }\npub trait ZooTr { type Out; }\nimpl ZooTr for u8 { type Out = u16; }\n"
